@@ -1,5 +1,6 @@
 import MuduoVerif.Proofs.TimerProps
 import MuduoVerif.Proofs.TimerSkelTie
+import MuduoVerif.Proofs.LoopSkelTie
 /-!
 # C06 — timers never early, as often as scheduled, in deadline order, none lost
 
@@ -231,5 +232,30 @@ equals the definition the model uses, which carries exactly `max (when - now) 10
 theorem arm_exact_in_range (w n : Int) (h1 : -9223372036854775808 ≤ w - n) (h2 : w - n < 9223372036854775808) :
     howMuchUsW w n = howMuchUs w n ∧ howMuchTimeFromNowW w n = howMuchTimeFromNow w n :=
   howMuchW_eq w n h1 h2
+
+/-- **timer_api_statement_order_tied** (T1, the API wrappers in front of the timer queue).  `EventLoop::runAt`, `runAfter`,
+`runEvery` and `cancel` of /repo's current `EventLoop.cc` have the statement skeleton `Timer.deadlineOf` assumes
+(`Model/LoopSkelDecl.lean`; re-extracted on every run by `vlib/gen/loopskel.py`, proved equal in
+`Proofs/LoopSkelTie.lean`): (f) `runAt` hands its deadline and the interval `0.0` to `timerQueue_->addTimer`; `runAfter`
+computes the deadline `addTime(Timestamp::now(), delay)` - one reading of the clock - and goes through `runAt`;
+`runEvery` computes `addTime(Timestamp::now(), interval)` (the first run is one interval from now) BEFORE it hands that
+deadline and the interval itself to `addTimer`; `cancel` forwards the id to `timerQueue_->cancel`; each returns what its
+callee returned, and does nothing else. -/
+theorem timer_api_statement_order_tied :
+    (Gen.LoopSkel.runAt = LoopSkel.Decl.runAt ∧
+     Gen.LoopSkel.runAfter = LoopSkel.Decl.runAfter ∧
+     Gen.LoopSkel.runEvery = LoopSkel.Decl.runEvery ∧
+     Gen.LoopSkel.cancel = LoopSkel.Decl.cancel) ∧
+    LoopSkel.flat Gen.LoopSkel.runAt = [.call "timerQueue_.addTimer" "cb, time, 0", .ret "<result>"] ∧
+    LoopSkel.flat Gen.LoopSkel.runAfter =
+      [.assign "time" "addTime(Timestamp::now(), delay)", .call "runAt" "time, cb", .ret "<result>"] ∧
+    LoopSkel.flat Gen.LoopSkel.runEvery =
+      [.assign "time" "addTime(Timestamp::now(), interval)", .call "timerQueue_.addTimer" "cb, time, interval",
+       .ret "<result>"] ∧
+    LoopSkel.before (.assign "time" "addTime(Timestamp::now(), interval)")
+      (.call "timerQueue_.addTimer" "cb, time, interval") (LoopSkel.flat Gen.LoopSkel.runEvery) = true ∧
+    LoopSkel.flat Gen.LoopSkel.cancel = [.call "timerQueue_.cancel" "timerId", .ret "<result>"] :=
+  ⟨⟨LoopSkel.skeleton_runAt, LoopSkel.skeleton_runAfter, LoopSkel.skeleton_runEvery, LoopSkel.skeleton_cancel⟩,
+   LoopSkel.timer_forwarders⟩
 
 end MuduoVerif.C06
